@@ -192,7 +192,7 @@ impl Check for C14 {
         "asp-roundtrip"
     }
     fn cases(&self, tier: Tier) -> usize {
-        tier.pick(120_000, 4_000_000)
+        tier.pick(1_200_000, 20_000_000)
     }
     fn strategy(&self, _tier: Tier) -> BoxedStrategy<AspCase> {
         let c = asp_cfg();
@@ -465,7 +465,7 @@ impl Check for C15 {
         "fol-roundtrip"
     }
     fn cases(&self, tier: Tier) -> usize {
-        tier.pick(100_000, 3_000_000)
+        tier.pick(600_000, 10_000_000)
     }
     fn strategy(&self, _tier: Tier) -> BoxedStrategy<FolCase> {
         let c = fol_cfg();
@@ -707,7 +707,7 @@ impl Check for C15Outputs {
         "translate-output"
     }
     fn cases(&self, tier: Tier) -> usize {
-        tier.pick(30_000, 600_000)
+        tier.pick(150_000, 3_000_000)
     }
     fn strategy(&self, _tier: Tier) -> BoxedStrategy<OutCase> {
         let c = out_cfg();
